@@ -183,7 +183,22 @@ def one_round(rep: Report, rng: Rng, spec: Spec, cfg0: dict, n: int, max_batches
                           {"program": p.describe(), "driver_line": lines[idx], "model": models[idx]})
 
 
+# (T) harness/translators/plumbing.py → lean/TE/Gen/Plumbing.lean; theorems in lean/TE/Props/C01_Plumb.lean.
+from ..translators import plumbing as plumbing_tr  # noqa: E402
+
+TRUSTED_EXTRA = ["harness/translators/plumbing.py (symbolic execution of the AST of update / merge_state / compute of every class; its "
+                 "operator table: `+`/`+=` = add, torch.max/maximum/max of two = max, torch.min/minimum/min of two = min, "
+                 ".to/.clone/.detach = identity, list.append) producing lean/TE/Gen/Plumbing.lean; cross-checked against the real "
+                 "merge_state / update on every run (plumbing:*-crosscheck counters)"]
+_PLUMB_ROWS = []
+
+
+def translate(rep: Report):
+    _PLUMB_ROWS[:] = plumbing_tr.generate(rep)
+
+
 def run(rep: Report):
+    plumbing_tr.crosscheck(rep, _PLUMB_ROWS or plumbing_tr.facts(), Rng(rep.seed * 7 + 3))
     rng = Rng(rep.seed * 1000003 + 1)
     per = 12 if rep.tier == "quick" else 120
     maxb = 6 if rep.tier == "quick" else 14
